@@ -56,3 +56,47 @@ Example C03_nonvacuous :
   | None => False
   end.
 Proof. vm_compute. repeat split. Qed.
+
+(* ---------- stage B2: the registry (JSR) paths, Model/Jsr.v ----------
+   Whatever the registry and the loader answer - for package documents, version
+   manifests (incl. undecodable ones and lockfile checksum mismatches), cache-only
+   probes, content loads and package files (missing, error, redirect, external,
+   a module under another final specifier, checksum mismatch), with or without a
+   restart for a stale package document - a completed build leaves no entry
+   pending and files every error entry under the specifier the error names. *)
+From DG Require Model.Jsr Proofs.JsrProofs.
+
+Theorem C03_registry_no_pending : forall W o roots g,
+  Jsr.jbuild W o roots = Some g -> forall s, lookup s (Jsr.jg_slots g) <> Some Jsr.JsPending.
+Proof. exact JsrProofs.jbuild_no_pending. Qed.
+Print Assumptions C03_registry_no_pending.
+
+Theorem C03_registry_errors_under_own_specifier : forall W o roots g,
+  Jsr.wf_jworld W = true -> Jsr.jbuild W o roots = Some g ->
+  forall s e, lookup s (Jsr.jg_slots g) = Some (Jsr.JsErr e) -> Jsr.je_spec e = s.
+Proof. intros W o roots g Hwf Hb. exact (proj1 (JsrProofs.jbuild_jinv W Hwf o roots g Hb)). Qed.
+Print Assumptions C03_registry_errors_under_own_specifier.
+
+(* Non-vacuity: root 1 is jsr:@s/a@1 (class CJsr 1 1 1); package 1 lists version 1; the manifest of
+   (1,1) exports "." to file 2 = https://jsr.io/@s/a/1.0.0/mod.ts with embedded module info; the
+   cache-only probe misses and the content load is answered with a redirect to 3. *)
+Definition c03j_world : Jsr.jworld :=
+  {| Jsr.jw_cls := [(1, Jsr.CJsr 1 1 1); (2, Jsr.CFile 1 1 1); (3, Jsr.CFile 1 1 2)];
+     Jsr.jw_use := [(2, Jsr.JRedirect 3)];
+     Jsr.jw_only := [];
+     Jsr.jw_pkgs := [(1, {| Jsr.p_url := 4; Jsr.p_use := Jsr.POk [(1, false)]; Jsr.p_reload := Jsr.POk [(1, false)] |})];
+     Jsr.jw_vers := [((1, 1), {| Jsr.v_url := 5; Jsr.v_base := 6;
+                                  Jsr.v_meta := Jsr.VOk {| Jsr.vi_hash := 9; Jsr.vi_lockfile_checksum := None;
+                                                           Jsr.vi_exports := [(1, 2)]; Jsr.vi_manifest := [(1, Jsr.MSha 7)];
+                                                           Jsr.vi_modinfo := [(1, [])] |};
+                                  Jsr.v_cached := false |})];
+     Jsr.jw_match := [(1, [1])]; Jsr.jw_lock_pkg := None; Jsr.jw_lock_remote := []; Jsr.jw_http := [2; 3];
+     Jsr.jw_missing_chk := 8; Jsr.jw_max_redirects := 10 |}.
+Example C03_registry_nonvacuous :
+  Jsr.wf_jworld c03j_world = true /\
+  match Jsr.jbuild c03j_world {| Jsr.jo_prefer_cached := false |} [1] with
+  | Some g => lookup 2 (Jsr.jg_slots g) = Some (Jsr.JsErr {| Jsr.je_kind := Jsr.ERedirectInPackage; Jsr.je_spec := 2; Jsr.je_ref := None |}) /\
+              Jsr.jg_redirects g = [(1, 2)]
+  | None => False
+  end.
+Proof. vm_compute. repeat split. Qed.
